@@ -113,6 +113,13 @@ Theorem C12_canonical_unique : forall d n a b,
 Proof. exact canonical_unique. Qed.
 Print Assumptions C12_canonical_unique.
 
+(* ... hence == is decided by the pruned copies: two well-formed root fibers compare equal exactly
+   when nonEmpty() yields the identical tree for both *)
+Theorem C12_eq_iff_same_pruned : forall n d a b, wf_root n a -> wf_root n b ->
+  (fiber_eq d d a b = true <-> non_empty d a = non_empty d b).
+Proof. exact eq_iff_same_pruned. Qed.
+Print Assumptions C12_eq_iff_same_pruned.
+
 (* what the oracle evaluated on the implementation's observation says *)
 Theorem C12_oracle_meaning :
   (forall x y, same_content x y = true
